@@ -112,6 +112,12 @@ fn check_one_desc(rep: &Report, prop: Prop, c: &DescCase, thorough: bool, cen: &
     // taproot signatures with an explicit sighash byte are one byte longer: C09 measures both kinds
     // (C09 is about upper bounds: the longer signature kind dominates the shorter one)
     let sig_kinds: &[bool] = if prop == Prop::C09 && matches!(c.d, D::Tr(..)) { &[true] } else { &[false] };
+    // the P2SH wrapping of a segwit script adds a scriptSig and nothing else: sh(wsh(X)) is satisfied
+    // exactly like wsh(X) (BIP143 digests do not commit to the previous scriptPubKey)
+    let twin: Option<DescCase> = match (&c.d, prop) {
+        (D::Wsh(t), Prop::C01) => crate::sat::prepare(&D::ShWsh(t.clone()), c.form).ok(),
+        _ => None,
+    };
     for (w, schnorr_all) in ws.iter().flat_map(|w| sig_kinds.iter().map(move |s| (w, *s))) {
         let spend = make_spend(c.spk.clone(), w.locktime, w.sequence);
         let sat = WorldSat { world: w, spend: &spend, sign: &c.sign, schnorr_all, lie_locks: false, cap: crate::world::SignCap::All };
@@ -119,6 +125,30 @@ fn check_one_desc(rep: &Report, prop: Prop, c: &DescCase, thorough: bool, cen: &
             bump(cen, "evaluations");
             let mode = if mall { "mall" } else { "nonmall" };
             let r = guard(|| if mall { c.desc.get_satisfaction_mall(&sat) } else { c.desc.get_satisfaction(&sat) });
+            if let (Some(tw), Ok(r0)) = (&twin, &r) {
+                let r2 = guard(|| if mall { tw.desc.get_satisfaction_mall(&sat) } else { tw.desc.get_satisfaction(&sat) });
+                let same = match (r0, &r2) {
+                    (Ok((w0, _)), Ok(Ok((w2, ss2)))) => {
+                        let mut redeem = vec![0x00u8, 0x20];
+                        redeem.extend_from_slice(&bitcoin::hashes::Hash::to_byte_array(<bitcoin::hashes::sha256::Hash as bitcoin::hashes::Hash>::hash(&c.targets[0].script)));
+                        let mut exp = vec![];
+                        crate::ast::push_data_minimal(&redeem, &mut exp);
+                        w0 == w2 && ss2.as_bytes() == &exp[..]
+                    }
+                    (Err(_), Ok(Err(_))) => true,
+                    _ => false,
+                };
+                if same {
+                    bump(cen, "sh_wsh_twins_equal");
+                } else {
+                    rep.violation(Violation {
+                        key: format!("C01|sh-wsh-twin|{}|{}|{}", mode, dsx, w.short()),
+                        class: "sh-wsh-differs-from-wsh".into(),
+                        what: format!("sh(wsh(X)) is satisfied differently from wsh(X) ({}): wsh is_ok = {}, sh(wsh) = {:?}", mode, r0.is_ok(), r2.as_ref().map(|x| x.as_ref().map(|(w, s)| (w.iter().map(|i| hex(i)).collect::<Vec<_>>(), hex(s.as_bytes()))).map_err(|e| e.to_string()))),
+                        case: json!({"desc": c.desc.to_string(), "model": dsx, "world": w.json(), "mode": mode}),
+                    });
+                }
+            }
             let r = match r {
                 Ok(r) => r,
                 Err(p) => {
